@@ -493,7 +493,7 @@ pub fn write_replay(co: &Coord, spec: &RunSpec, sig: &str, original: &RunOut, mi
     };
     let dir = format!("{}/replays", verif_dir());
     let _ = std::fs::create_dir_all(&dir);
-    let path = format!("{}/{}-{}.json", dir, co.def.id, spec.seed);
+    let path = format!("{}/{}-{}-{:08x}.json", dir, co.def.id, spec.seed, super::sim::hash_str(sig) as u32);
     let repo_rev = std::process::Command::new("git")
         .args(["-C", "/repo", "describe", "--always", "--dirty"])
         .output()
@@ -600,7 +600,10 @@ pub fn check(def: &'static PropDef, tier: &str, seed: u64) -> i32 {
                 *known_matched.entry(sig.clone()).or_insert(0) += 1;
             } else {
                 all_known = false;
-                unknown.entry(sig.clone()).or_default().push(i);
+                let e = unknown.entry(sig.clone()).or_default();
+                if e.last() != Some(&i) {
+                    e.push(i);
+                }
             }
         }
         let _ = all_known;
